@@ -1867,8 +1867,16 @@ class unyt_array(np.ndarray):
                         raise UnitOperationError(ufunc, u0, u1.units)
                     if u1.shape == ():
                         u1 = float(u1)
-                    else:
+                    elif u0.is_dimensionless:
                         u1 = 1.0
+                    else:
+                        # a base with units can only be raised to one power
+                        if np.ptp(u1) != 0:
+                            raise UnitOperationError(
+                                ufunc, u0, getattr(u1, "units", None)
+                            )
+                        first_element_slice = (0,) * u1.ndim
+                        u1 = float(u1[first_element_slice])
                 elif inp0.shape == inp1.shape:
                     if isinstance(u1, unyt_array) and not u1.units.is_dimensionless:
                         raise UnitOperationError(ufunc, u0, getattr(u1, "units", None))
